@@ -1,4 +1,5 @@
-\* C11 quick A: every module graph over 3 modules (<= 2 requires each; form and
+\* C11 quick A: every module graph over 3 modules (<= 2 requires each, in module
+\* order of their targets; form and
 \* load-time bump of an edge fixed by its position), every form of requiring
 \* the first module followed by the bumps it makes possible
 CONSTANTS
@@ -9,6 +10,7 @@ CONSTANTS
   MaxOut = 2
   GenRot = TRUE
   GenBack = "all"
+  GenSorted = TRUE
   MaxCtr = 1
   LoadCap = 2
   MaxReq = 2
